@@ -55,15 +55,14 @@ fn make_tables() -> Tables {
     for (k, f) in funcs.iter() {
         by_key.insert(k.clone(), *f);
     }
-    // real objects: UDP flows that differ in the client port, made by the real constructor
+    // real objects: UDP flows that differ in the client port, made by the real constructor's exec
     let flow = by_key["ipv4::udp::flow"];
     let mut objs = Vec::new();
     for t in 0..NTAGS {
         let cl = Val::Sock4(SocketAddrV4::new(Ipv4Addr::new(10, 0, 0, 1), 1000 + t as u16));
         let sv = Val::Sock4(SocketAddrV4::new(Ipv4Addr::new(10, 0, 0, 2), 53));
-        let args = flow
-            .args(None, vec![ArgSpec::new(None, cl), ArgSpec::new(None, sv)])
-            .expect("udp::flow binds");
+        // handed over directly (not through the binder under test): cl, sv, raw
+        let args = Args::new(None, vec![cl, sv, Val::Bool(false)], vec![]);
         objs.push((flow.exec)(args).expect("udp::flow runs"));
     }
     let pkts = (0..NTAGS).map(|_| Rc::new(pkt::Packet::with_capacity(16))).collect();
@@ -204,10 +203,59 @@ fn compat_tables() {
     }
 }
 
+/// the real `From<Val>` conversions and `Val::as_ref`, tried on one value of every kind:
+/// `V <conversion> <kind> 0|1` (1 = defined, 0 = panics)
+fn conv_tables(t: &Tables) {
+    const KINDS: [&str; 15] = [
+        "Void", "Bool", "U8", "U16", "U32", "U64", "Ip4", "Sock4", "Str", "Obj", "Func", "Method", "Pkt", "PktGen",
+        "TimeJump",
+    ];
+    macro_rules! conv {
+        ($name:expr, $ty:ty, $k:expr, $v:expr) => {{
+            let v: Val = $v.clone();
+            let ok = guarded(move || {
+                let _x: $ty = v.into();
+            })
+            .is_ok();
+            println!("V {} {} {}", $name, $k, if ok { 1 } else { 0 });
+        }};
+    }
+    for k in KINDS.iter() {
+        let v = make_val(t, k, 1).expect("kind");
+        conv!("CBool", bool, k, v);
+        conv!("CU8", u8, k, v);
+        conv!("CU16", u16, k, v);
+        conv!("CU32", u32, k, v);
+        conv!("CU64", u64, k, v);
+        conv!("CSock4", SocketAddrV4, k, v);
+        conv!("CIp4", Ipv4Addr, k, v);
+        conv!("CBuf", Buf, k, v);
+        conv!("CPktGen", Rc<Vec<pkt::Packet>>, k, v);
+        conv!("CPkt", Rc<pkt::Packet>, k, v);
+        conv!("COptIp4", Option<Ipv4Addr>, k, v);
+        conv!("COptU64", Option<u64>, k, v);
+        conv!("COptU32", Option<u32>, k, v);
+        conv!("COptU16", Option<u16>, k, v);
+        conv!("COptU8", Option<u8>, k, v);
+        conv!("COptBuf", Option<Buf>, k, v);
+        let w = v.clone();
+        let ok = guarded(move || {
+            let r: &[u8] = w.as_ref();
+            r.len()
+        })
+        .is_ok();
+        println!("V CAsRef {} {}", k, if ok { 1 } else { 0 });
+    }
+}
+
 fn main() {
     let argv: Vec<String> = std::env::args().collect();
     if argv.len() == 3 && argv[1] == "--compat" {
         compat_tables();
+        return;
+    }
+    if argv.len() == 3 && argv[1] == "--conv" {
+        conv_tables(&make_tables());
         return;
     }
     if argv.len() != 3 {
